@@ -889,6 +889,17 @@ pub fn king_pairs_stride(stride: usize) -> Vec<(Sq, Sq)> {
     v
 }
 
+/// one king in the a1 corner, the other at distance two (both colour assignments): the family in
+/// which stalemates / mates with few pieces and "the only legal moves belong to a pinned piece" live
+pub fn cornered_king_placements() -> Vec<(Sq, Sq)> {
+    let mut v = Vec::new();
+    for o in [2u8, 10, 16, 17, 18] {
+        v.push((0, o));
+        v.push((o, 0));
+    }
+    v
+}
+
 pub fn six_king_placements() -> Vec<(Sq, Sq)> {
     vec![(4, 60), (0, 63), (27, 36), (6, 57), (20, 44), (24, 39)]
 }
